@@ -149,7 +149,8 @@ func init() {
 	runners["saslreconnect"] = func(c *Ctx, in map[string]string) {
 		hin := hexIn(in)
 		pass := strings.Repeat("p4ss", 200) // response of ~1100 bytes: three chunks
-		cl := girc.New(girc.Config{Server: "irc.example.org", Port: 6667, Nick: "me", User: "me", Name: "me", AllowFlood: true,
+		var dbg, outw syncBuf
+		cl := girc.New(girc.Config{Server: "irc.example.org", Port: 6667, Nick: "me", User: "me", Name: "me", AllowFlood: true, Debug: &dbg, Out: &outw,
 			SASL: &girc.SASLPlain{User: "acct", Pass: pass}})
 		full := base64.StdEncoding.EncodeToString([]byte("acct\x00acct\x00" + pass))
 		round := func(dieAfterChunks int) (lines []string) {
@@ -213,6 +214,88 @@ func init() {
 			c.R.Violation("c09.exact", hin, fmt.Sprintf("%d chunks, %d bytes", len(got), len(strings.Join(got, ""))), fmt.Sprintf("%d bytes", len(full)),
 				"on the second connection the concatenated AUTHENTICATE chunks differ from base64(user NUL user NUL pass)")
 		}
+		// whatever happened to the chunks still queued when the first link dropped, they were never written to a log
+		for name, logged := range map[string]string{"Debug": dbg.String(), "Out": outw.String()} {
+			for _, frag := range []string{full[8:40], full[420:452], full[len(full)-40 : len(full)-8], pass[:24]} {
+				if strings.Contains(logged, frag) {
+					c.R.Violation("c09.secret_logged_reconnect", hin, name+" log contains "+frag, "", "a piece of the SASL response / password reached a log writer (events left in the queue by a dropped connection included)")
+					break
+				}
+			}
+		}
 		c.R.Count("saslreconnect", true, "sasl-reconnect")
+	}
+	// SASL configured AFTER New (credentials obtained late, or switched on between reconnects): the capability is requested from
+	// the configuration read at connect time, so the exchange must be carried through — and a refusal must end the connection
+	runners["sasllate"] = func(c *Ctx, in map[string]string) {
+		hin := hexIn(in)
+		cl := girc.New(girc.Config{Server: "irc.example.org", Port: 6667, Nick: "me", User: "me", Name: "me", AllowFlood: true})
+		if in["notrack"] == "1" {
+			cl.DisableTracking()
+		}
+		cl.Config.SASL = &girc.SASLPlain{User: "acct", Pass: "latepass"}
+		full := base64.StdEncoding.EncodeToString([]byte("acct\x00acct\x00latepass"))
+		cli, srv := net.Pipe()
+		ret := make(chan error, 1)
+		go func() { ret <- cl.MockConnect(cli) }()
+		rd := bufio.NewReader(srv)
+		var lines []string
+		requested, answered := false, false
+		for {
+			srv.SetReadDeadline(time.Now().Add(1500 * time.Millisecond))
+			l, err := rd.ReadString('\n')
+			if err != nil {
+				break
+			}
+			l = strings.TrimRight(l, "\r\n")
+			lines = append(lines, l)
+			srv.SetWriteDeadline(time.Now().Add(2 * time.Second))
+			switch {
+			case strings.HasPrefix(l, "CAP LS"):
+				srv.Write([]byte(":srv CAP * LS :sasl=PLAIN\r\n"))
+			case strings.HasPrefix(l, "CAP REQ"):
+				requested = strings.Contains(l, "sasl")
+				srv.Write([]byte(":srv CAP * ACK :" + strings.TrimPrefix(l, "CAP REQ :") + "\r\n"))
+			case l == "AUTHENTICATE PLAIN":
+				srv.Write([]byte("AUTHENTICATE +\r\n"))
+			case strings.HasPrefix(l, "AUTHENTICATE "):
+				answered = l == "AUTHENTICATE "+full
+				if in["outcome"] == "fail" {
+					srv.Write([]byte(":srv 904 me :SASL authentication failed\r\n"))
+				} else {
+					srv.Write([]byte(":srv 903 me :SASL authentication successful\r\n"))
+				}
+			case l == "CAP END":
+				srv.Write([]byte(":srv 001 me :Welcome\r\n"))
+				goto out
+			}
+		}
+	out:
+		var err error
+		returned := false
+		if in["outcome"] == "fail" {
+			select {
+			case err = <-ret:
+				returned = true
+			case <-time.After(2 * time.Second):
+			}
+		}
+		cl.Close()
+		srv.Close()
+		if !returned {
+			select {
+			case <-ret:
+			case <-time.After(5 * time.Second):
+			}
+		}
+		if requested && !answered {
+			c.R.Violation("c09.late_config_unanswered", hin, fmt.Sprintf("%.200q", lines), "AUTHENTICATE "+full,
+				"the client requested sasl and started the exchange but did not answer the server's AUTHENTICATE + with the encoded credentials")
+		}
+		if requested && in["outcome"] == "fail" && (!returned || err == nil) {
+			c.R.Violation("c09.late_config_not_failed_closed", hin, fmt.Sprintf("returned=%v err=%v", returned, err), "Connect returns an error",
+				"the server refused the credentials (904) and the connection was not ended with an error")
+		}
+		c.R.Count("sasllate/"+in["outcome"]+in["notrack"], true, "sasl-late-config")
 	}
 }
